@@ -57,6 +57,15 @@ func c09Gen(r *driver.Rand, thorough bool) *driver.Plan {
 			}
 		}
 	}
+	if (stage == "fork.Filter" || stage == "fork.Partition") && r.Chance(1, 3) {
+		// predicates that fail on some elements (and may answer true while failing)
+		p.SetX("pred_fail", 1)
+		for i := 0; i < n; i++ {
+			if r.Chance(1, 3) {
+				p.FailAt = append(p.FailAt, i)
+			}
+		}
+	}
 	// completion orders of in-flight calls: stalls and extra scheduling points
 	if r.Chance(1, 2) {
 		k := 1 + r.Intn(4)
